@@ -1,7 +1,8 @@
 from common import T_COMMON
 
 CFG = dict(
-    gen=[dict(spec="transform.json", out="Transform.lean"), dict(spec="sdf.json", out="Sdf.lean")],
+    gen=[dict(spec="transform.json", out="Transform.lean"), dict(spec="sdf.json", out="Sdf.lean"),
+         dict(tool="facts", mode="c19.ops", out="SdfOpsShape.lean")],
     theorems=[
         # sphere
         "sphere_eq", "sphere_neg_iff", "sphere_zero_iff", "sphere_lipschitz", "sphere_exact_le", "sphere_exact_attained",
@@ -47,6 +48,8 @@ CFG = dict(
         "translate_exactAt", "translate_exactOutside", "translate_exactInside",
         "sphere_exactOutside", "sphere_exactInside", "roundedCone_exactOutside", "roundedCone_exactInside", "varLine_exactOutside",
         "union_not_exact_inside", "union_not_exactAt_inside",
+        # round 2 — the hand models of the variadic glue equal the interpretation of the statement lists extracted from the source (Props/C19Src.lean)
+        "union_eq_shape", "intersect_eq_shape", "varLine_loop", "varLine_eq_shape",
     ],
     helper_theorems=[
         "PolyVerif.Cone.roundedCone_unfold", "PolyVerif.Cone.a2_nonpos_iff", "PolyVerif.Cone.roundedCone_eq_core", "PolyVerif.Cone.nested_le_ball", "PolyVerif.Cone.mul_abs_lt_iff", "PolyVerif.Cone.test1_iff", "PolyVerif.Cone.test2_iff",
@@ -56,10 +59,10 @@ CFG = dict(
         "PolyVerif.SdfExact.rayH_pos", "PolyVerif.SdfExact.rayH_dist", "PolyVerif.SdfExact.rayR_pos", "PolyVerif.SdfExact.rayR_dist",
         "PolyVerif.SdfExact.profile_level_attained", "PolyVerif.SdfExact.radial_dir",
     ],
-    modules=["PolyVerif.Props.C19", "PolyVerif.Props.C19Cone", "PolyVerif.Props.C19Capsule", "PolyVerif.Props.C19Exact", "PolyVerif.Props.C19ConeInterior", "PolyVerif.Props.C19Compose"],
+    modules=["PolyVerif.Props.C19", "PolyVerif.Props.C19Cone", "PolyVerif.Props.C19Capsule", "PolyVerif.Props.C19Exact", "PolyVerif.Props.C19ConeInterior", "PolyVerif.Props.C19Compose", "PolyVerif.Props.C19Src"],
     streams=[dict(name="c19", n=dict(quick=400, thorough=30000))],
     harness_files=[],
-    trusted=T_COMMON + ["hand model of sdf.Union/Intersect (PolyVerif/Model/SdfOps.lean) and of the VarryingThicknessLine loop (Model/SdfVarLine.lean), tied at Float bit-for-bit by the c19 stream",
+    trusted=T_COMMON + ["statement extractor go/facts c19.ops (go/ast recogniser of the exact statement forms of sdf.Union / Intersect / VarryingThicknessLine; fails on any other form) and its interpreter PolyVerif/Model/SdfOpsIR.lean: the driver answers c19.union / c19.intersect / c19.varline from the interpretation of the extracted terms, compared with Go bit for bit; the hand models SdfOps.Union/Intersect and SdfVarLine.VarryingThicknessLine, which the theorems are stated about, are PROVED equal to that interpretation (union_eq_shape, intersect_eq_shape, varLine_eq_shape)",
                         "reference distance functions inside the driver (Driver/C19.lean) used by the oracle lines"],
     residue=[
         "RoundedCone: sign, zero set, 1-Lipschitz bound, exact-distance lower bound and the convex-hull form (0 < r1, r2) are proved for ALL parameters (…_all theorems: a = b, nested and internally tangent balls included; no sign condition on the radii except where stated). The source has two regimes separated exactly by a2 > 0 ⇔ |r1 - r2| < |b - a| (Cone.a2_nonpos_iff): the three-branch formula (roundedCone_profile and the …_profile forms need this guard) and the early return of the larger ball (roundedCone_nested). The early return was added to /repo (b302544) after this proof found the bare formula wrong outside the guard; roundedCone_guard_needed / roundedCone_guard_sharp are closed witnesses about coneFormulaOld, a local Lean copy of the closure body without the early return (not regenerated — it documents the old defect, it is not a claim about the current source); the same two inputs run first in the c19 stream as fixed corpus lines against the current source",
@@ -73,7 +76,7 @@ CFG = dict(
         "capsule with start = end is excluded (guard a ≠ b; the property quantifies over sizes > 0); in float64 the Go code returns NaN there",
         "plane: the 1-Lipschitz and exact-distance theorems need a unit normal (n·n = 1); for an arbitrary normal the field is the distance scaled by |n|, both directions proved (plane_lipschitz_scaled, plane_exact_scaled_le, plane_exact_scaled_attained for n != 0; n = 0 gives the constant h: plane_zero_normal); sign and zero set need no normalisation",
         "sphere_eq, plane_eq, line_eq, roundedBox_eq, translate_spec are definitional unfoldings (rfl) listed for reference: they fix what the regenerated closures compute, they are not property clauses",
-        "VarryingThicknessLine: its loop (consecutive points -> RoundedCone, then Union) is a hand model (Model/SdfVarLine.lean, outside the translator's subset) built from the REGENERATED RoundedCone; it is corresponded bit for bit by the c19.varline lines (0..5 points incl. the panic for fewer than two, repeated points, swallowing radii); varLine_lipschitz / varLine_neg_iff are corollaries of the all-parameter rounded-cone theorems and union_lipschitz / union_neg_iff, about that model (varLine_eq_model)",
+        "Union / Intersect / VarryingThicknessLine are variadic loops over closures, outside the arithmetic translator's subset: their statement lists are EXTRACTED from the source on every run (go/facts c19.ops -> Gen/SdfOpsShape.lean: the panic guard, the 1- and 2-operand special cases with their math.Min/Max, the fold's initial index, loop start and operator; for the line: the length guard, loop start, which neighbours are paired, the argument order of RoundedCone, the final Union) and interpreted by Model/SdfOpsIR.lean; the hand models the theorems speak about (Model/SdfOps.lean, Model/SdfVarLine.lean, built on the REGENERATED RoundedCone) are proved equal to that interpretation for every operand list and scalar (union_eq_shape, intersect_eq_shape, varLine_eq_shape), and the driver answers the c19.union / c19.intersect / c19.varline lines (0..5 points incl. the panic for fewer than two, repeated points, swallowing radii; 0..k operands) from the interpretation. Trusted there: the recogniser (it refuses every statement form it does not know) and the 40-line interpreter — no longer a transcription by hand",
         "IEEE rounding: theorems are over ℝ",
     ],
     assumptions=["float64 arithmetic in Go on amd64 is IEEE-754 without FMA contraction"],
